@@ -7,7 +7,9 @@ import (
 	"crypto/sha256"
 	"encoding/binary"
 	"fmt"
+	"io"
 	"math/big"
+	"reflect"
 	"sync"
 	"testing"
 	"unsafe"
@@ -34,7 +36,7 @@ type c13Case struct {
 var c13Ops = []string{
 	"commit", "multiprove", "multiprove_shared_index", "multiverify", "multiverify_bad", "ipaprove", "ipaverify", "ipaverify_bad",
 	"multiscalar_srs", "multiexp", "multiexp_regular", "elem_codec", "batch_codec", "fr_decode", "batchinvert", "bary", "divide", "innerprod",
-	"transcript", "group_ops_on_config", "proof_serde", "batchnormalize", "msm_short",
+	"transcript", "group_ops_on_config", "proof_serde", "batchnormalize", "msm_short", "noise", "noise",
 }
 
 func genC13(t *rapid.T) c13Case {
@@ -109,9 +111,66 @@ func smallState() [32]byte {
 		}
 	}
 	h.Write(fr.Modulus().Bytes())
+	deepHash(h, reflect.ValueOf(cfg), 0) // the whole configuration object, unexported and future fields included
 	var out [32]byte
 	copy(out[:], h.Sum(nil))
 	return out
+}
+
+// deepHash walks a value with reflection (unexported fields included) and hashes every scalar it reaches; the
+// field PrecompMSM (350 MB, fingerprinted separately) is skipped. Added fields, caches or memos inside the shared
+// configuration are therefore part of the fingerprint without the harness having to know their names.
+func deepHash(h io.Writer, v reflect.Value, depth int) {
+	if depth > 12 {
+		return
+	}
+	switch v.Kind() {
+	case reflect.Ptr, reflect.Interface:
+		if v.IsNil() {
+			h.Write([]byte{0})
+			return
+		}
+		h.Write([]byte{1})
+		deepHash(h, v.Elem(), depth+1)
+	case reflect.Struct:
+		for i := 0; i < v.NumField(); i++ {
+			if v.Type().Field(i).Name == "PrecompMSM" {
+				continue
+			}
+			deepHash(h, v.Field(i), depth+1)
+		}
+	case reflect.Slice:
+		if v.IsNil() {
+			h.Write([]byte{2})
+			return
+		}
+		binary.Write(h, binary.LittleEndian, int64(v.Len()))
+		fallthrough
+	case reflect.Array:
+		if k := v.Type().Elem().Kind(); k == reflect.Uint64 || k == reflect.Uint8 {
+			for i := 0; i < v.Len(); i++ {
+				binary.Write(h, binary.LittleEndian, v.Index(i).Uint())
+			}
+			return
+		}
+		for i := 0; i < v.Len(); i++ {
+			deepHash(h, v.Index(i), depth+1)
+		}
+	case reflect.Map:
+		binary.Write(h, binary.LittleEndian, int64(v.Len()))
+	case reflect.Bool:
+		if v.Bool() {
+			h.Write([]byte{1})
+		} else {
+			h.Write([]byte{0})
+		}
+	case reflect.Int, reflect.Int8, reflect.Int16, reflect.Int32, reflect.Int64:
+		binary.Write(h, binary.LittleEndian, v.Int())
+	case reflect.Uint, reflect.Uint8, reflect.Uint16, reflect.Uint32, reflect.Uint64, reflect.Uintptr:
+		binary.Write(h, binary.LittleEndian, v.Uint())
+	case reflect.String:
+		h.Write([]byte(v.String()))
+	}
 }
 
 // tableState hashes all precomputed MSM table entries (about 350 MB).
@@ -181,6 +240,23 @@ func c13Probe() []byte {
 	sb := st.Bytes()
 	buf.Write(sb[:])
 	fmt.Fprintf(&buf, "|%v|%v", ok, verr)
+	// and a single-opening statement, an in-domain IPA proof, a short commitment
+	one := openSet{Label: "probe1", Polys: []polySpec{{Kind: "sparse", Seed: 5, Idx: []int{17, 90}}}, Open: []opening{{Poly: 0, Z: 17}}}
+	b1, _ := one.build()
+	if p1, err := multiproof.CreateMultiProof(common.NewTranscript("probe1"), cfg, b1.Cs, b1.fs, b1.zs); err == nil {
+		_ = p1.Write(&buf)
+		ok1, verr1 := multiproof.CheckMultiProof(common.NewTranscript("probe1"), cfg, p1, b1.Cs, b1.ys, b1.zs)
+		fmt.Fprintf(&buf, "|%v|%v", ok1, verr1)
+	}
+	c0 := cfg.Commit(b1.polysFr[0])
+	if ip, err := ipa.CreateIPAProof(common.NewTranscript("probe2"), cfg, c0, b1.polysFr[0], hx.FrFromBig(big.NewInt(90))); err == nil {
+		_ = ip.Write(&buf)
+		ok2, verr2 := ipa.CheckIPAProof(common.NewTranscript("probe2"), cfg, c0, ip, hx.FrFromBig(big.NewInt(90)), b1.polysFr[0][90])
+		fmt.Fprintf(&buf, "|%v|%v", ok2, verr2)
+	}
+	short := cfg.Commit(b1.polysFr[0][:20])
+	sbb := short.Bytes()
+	buf.Write(sbb[:])
 	return buf.Bytes()
 }
 
@@ -432,7 +508,7 @@ func doCall(env *c13Env, c pcall, rec *hx.Rec) error {
 			return fail("the proof object was modified by verification")
 		}
 	case "ipaprove":
-		f := hx.FrSliceFromBig(polySpec{Kind: "dense", Seed: c.Seed}.evals())
+		f := hx.FrSliceFromBig(polySpec{Kind: []string{"dense", "sparse", "onehot", "sparse"}[c.N%4], Seed: c.Seed, Idx: []int{c.K, (c.K + 100) & 255, 3}, Val: "7"}.evals())
 		s := snapFr(f)
 		comm := cfg.Commit(f)
 		commSnap := comm
@@ -676,6 +752,8 @@ func doCall(env *c13Env, c pcall, rec *hx.Rec) error {
 		if !bytes.Equal(raw, buf.Bytes()) || env.lastProof.D != snap.D || !sameEl(lSnap, env.lastProof.IPA.L) || !sameEl(rSnap, env.lastProof.IPA.R) {
 			return fail("serialisation modified the proof or the bytes")
 		}
+	case "noise": // unrelated calls including failing ones (their own arguments are not snapshotted; the shared state is)
+		runNoise(c.Seed|1, 3, true)
 	default:
 		panic(hx.Inconclusive{Msg: "unknown call " + c.Op})
 	}
